@@ -45,6 +45,10 @@ pub struct Case {
     /// imported credentials may carry others: HMAC keys of any length are defined)
     #[serde(default)]
     pub secret_len: Option<u8>,
+    /// client level: the credProps extension in the same request: 0 absent, 1 true, 2 false
+    /// (extensions are independent: what PRF reports does not depend on its neighbours)
+    #[serde(default)]
+    pub cred_props: u8,
 }
 
 fn pat(seed: u8, len: usize) -> Vec<u8> {
@@ -77,10 +81,10 @@ pub fn cases(tier: Tier) -> Vec<Case> {
                         for ebc in 0..7u8 {
                             for variant in 0..3u8 {
                                 for &len in &lens {
-                                    v.push(Case { hmac, hmac_mc, register: true, ctap: false, uv_required, verified, secrets: 0, eval, ebc, allow: 0, variant, len, len2: None, dict: None, secret_len: None });
+                                    v.push(Case { hmac, hmac_mc, register: true, ctap: false, uv_required, verified, secrets: 0, eval, ebc, allow: 0, variant, len, len2: None, dict: None, secret_len: None, cred_props: 0 });
                                     for secrets in 0..3u8 {
                                         for allow in 0..3u8 {
-                                            v.push(Case { hmac, hmac_mc, register: false, ctap: false, uv_required, verified, secrets, eval, ebc, allow, variant, len, len2: None, dict: None, secret_len: None });
+                                            v.push(Case { hmac, hmac_mc, register: false, ctap: false, uv_required, verified, secrets, eval, ebc, allow, variant, len, len2: None, dict: None, secret_len: None, cred_props: 0 });
                                         }
                                     }
                                 }
@@ -90,9 +94,9 @@ pub fn cases(tier: Tier) -> Vec<Case> {
                         for ebc in [0u8, 2, 3] {
                             for secrets in 0..3u8 {
                                 // CTAP2-level registration: `secrets` selects the hmac-secret member {absent, false, true}
-                                v.push(Case { hmac, hmac_mc, register: true, ctap: true, uv_required, verified, secrets, eval, ebc: 0, allow: 0, variant: 1, len: 32, len2: None, dict: None, secret_len: None });
+                                v.push(Case { hmac, hmac_mc, register: true, ctap: true, uv_required, verified, secrets, eval, ebc: 0, allow: 0, variant: 1, len: 32, len2: None, dict: None, secret_len: None, cred_props: 0 });
                                 for allow in [0u8, 2] {
-                                    v.push(Case { hmac, hmac_mc, register: false, ctap: true, uv_required, verified, secrets, eval, ebc, allow, variant: 1, len: 32, len2: None, dict: None, secret_len: None });
+                                    v.push(Case { hmac, hmac_mc, register: false, ctap: true, uv_required, verified, secrets, eval, ebc, allow, variant: 1, len: 32, len2: None, dict: None, secret_len: None, cred_props: 0 });
                                 }
                             }
                         }
@@ -105,17 +109,17 @@ pub fn cases(tier: Tier) -> Vec<Case> {
     for (len, len2) in [(40u16, 24u16), (24, 40), (32, 0), (0, 32), (32, 31), (64, 0), (16, 48)] {
         for hmac in 1..3u8 {
             for ebc in [0u8, 2] {
-                v.push(Case { hmac, hmac_mc: true, register: true, ctap: false, uv_required: true, verified: true, secrets: 0, eval: 2, ebc: 0, allow: 0, variant: 1, len, len2: Some(len2), dict: None, secret_len: None });
-                v.push(Case { hmac, hmac_mc: true, register: false, ctap: false, uv_required: true, verified: true, secrets: 2, eval: 2, ebc, allow: 2, variant: 1, len, len2: Some(len2), dict: None, secret_len: None });
+                v.push(Case { hmac, hmac_mc: true, register: true, ctap: false, uv_required: true, verified: true, secrets: 0, eval: 2, ebc: 0, allow: 0, variant: 1, len, len2: Some(len2), dict: None, secret_len: None, cred_props: 0 });
+                v.push(Case { hmac, hmac_mc: true, register: false, ctap: false, uv_required: true, verified: true, secrets: 2, eval: 2, ebc, allow: 2, variant: 1, len, len2: Some(len2), dict: None, secret_len: None, cred_props: 0 });
             }
         }
     }
     // every input length 0..=300 once (hash block boundaries, scratch-buffer sizes): first input of
     // length n, second of length 300 - n, through the client's own salt derivation
     for n in 0..=300u16 {
-        v.push(Case { hmac: 2, hmac_mc: true, register: false, ctap: false, uv_required: true, verified: true, secrets: 2, eval: 2, ebc: if n % 2 == 0 { 0 } else { 2 }, allow: 2, variant: 0, len: n, len2: Some(300 - n), dict: None, secret_len: None });
+        v.push(Case { hmac: 2, hmac_mc: true, register: false, ctap: false, uv_required: true, verified: true, secrets: 2, eval: 2, ebc: if n % 2 == 0 { 0 } else { 2 }, allow: 2, variant: 0, len: n, len2: Some(300 - n), dict: None, secret_len: None, cred_props: 0 });
         if n % 4 == 0 {
-            v.push(Case { hmac: 2, hmac_mc: true, register: true, ctap: false, uv_required: true, verified: true, secrets: 0, eval: 2, ebc: 0, allow: 0, variant: 0, len: n, len2: Some(300 - n), dict: None, secret_len: None });
+            v.push(Case { hmac: 2, hmac_mc: true, register: true, ctap: false, uv_required: true, verified: true, secrets: 0, eval: 2, ebc: 0, allow: 0, variant: 0, len: n, len2: Some(300 - n), dict: None, secret_len: None, cred_props: 0 });
         }
     }
     // stored secrets of other lengths than the library generates (below, at and above the hash's
@@ -124,7 +128,7 @@ pub fn cases(tier: Tier) -> Vec<Case> {
         for verified in [true, false] {
             for secrets in 1..3u8 {
                 for ctap in [false, true] {
-                    v.push(Case { hmac: 2, hmac_mc: true, register: false, ctap, uv_required: verified, verified, secrets, eval: 2, ebc: 0, allow: 2, variant: 1, len: 32, len2: None, dict: None, secret_len: Some(secret_len) });
+                    v.push(Case { hmac: 2, hmac_mc: true, register: false, ctap, uv_required: verified, verified, secrets, eval: 2, ebc: 0, allow: 2, variant: 1, len: 32, len2: None, dict: None, secret_len: Some(secret_len), cred_props: 0 });
                 }
             }
         }
@@ -135,11 +139,14 @@ pub fn cases(tier: Tier) -> Vec<Case> {
             for register in [false, true] {
                 for variant in 0..2u8 {
                     let bytes = if variant == 1 { rp::sha256(&l) } else { l.clone() };
-                    v.push(Case { hmac, hmac_mc: true, register, ctap: false, uv_required: true, verified: true, secrets: 2, eval: 1, ebc: 0, allow: if register { 0 } else { 2 }, variant, len: bytes.len() as u16, len2: None, dict: Some(hex(&bytes)), secret_len: None });
+                    v.push(Case { hmac, hmac_mc: true, register, ctap: false, uv_required: true, verified: true, secrets: 2, eval: 1, ebc: 0, allow: if register { 0 } else { 2 }, variant, len: bytes.len() as u16, len2: None, dict: Some(hex(&bytes)), secret_len: None, cred_props: 0 });
                 }
             }
         }
     }
+    // the credProps extension next to PRF in the same client request (32-byte inputs)
+    let with_neighbour: Vec<Case> = v.iter().filter(|c| !c.ctap && c.len == 32 && c.len2.is_none() && c.dict.is_none() && c.secret_len.is_none() && c.ebc <= 2).flat_map(|c| [Case { cred_props: 1, ..c.clone() }, Case { cred_props: 2, ..c.clone() }]).collect();
+    v.extend(with_neighbour);
     v.sort_by_key(|c| serde_json::to_string(c).unwrap());
     v.dedup();
     v
@@ -305,7 +312,7 @@ fn run_case(c: &Case, store: &Shared<RefStore>, log: &Log) -> Result<Out, String
         });
     }
     let mut client = passkey_client::Client::new(mk_auth(logged, uv, &cfg));
-    let ext = Some(webauthn::AuthenticationExtensionsClientInputs { cred_props: None, prf: inp.prf, prf_already_hashed: inp.hashed });
+    let ext = Some(webauthn::AuthenticationExtensionsClientInputs { cred_props: match c.cred_props { 0 => None, 1 => Some(true), _ => Some(false) }, prf: inp.prf, prf_already_hashed: inp.hashed });
     let uvr = if c.uv_required { UVR::Required } else { UVR::Discouraged };
     let conv = |o: Option<webauthn::AuthenticationExtensionsPrfOutputs>| o.map(|p| (p.enabled, p.results.as_ref().map(|r| r.first.to_vec()), p.results.as_ref().and_then(|r| r.second.as_ref().map(|s| s.to_vec()))));
     if c.register {
